@@ -24,8 +24,8 @@ def plan(tier, ctx):
     j += fvm.config('C05', 'cond_1w_bcast', 'cond.c', 2, 4, 'sc', srcs=src, defines=['NW=1', 'NSIG=1', 'BROADCAST'], spec=fvm.kspec_amutex(2), bounds='1 waiter, 1 broadcast', timeout=1200)
     j += fvm.config('C05', 'cond_1w_pred_outside', 'cond.c', 2, 4, 'sc', srcs=src, defines=['NW=1', 'NSIG=1', 'PREDICATE', 'SIGNAL_OUTSIDE'], spec=fvm.kspec_amutex(2), bounds='1 waiter with predicate loop; predicate set under the mutex, signal sent after unlocking', timeout=1200)
     if tier == 'thorough':
-        j += fvm.config('C05', 'cond_1w_pred_outside2', 'cond.c', 2, 4, 'sc', srcs=src, defines=['NW=1', 'NSIG=2', 'PREDICATE', 'SIGNAL_OUTSIDE'], spec=fvm.kspec_amutex(2, spin=0), bounds='as before, preceded by one blind signal without the mutex; spin bound 0', timeout=3600, required=False)
-        j += fvm.config('C05', 'cond_2w_bcast', 'cond.c', 3, 4, 'sc', srcs=src, defines=['NW=2', 'NSIG=1', 'BROADCAST'], spec=fvm.kspec_amutex(3), bounds='2 waiters, 1 broadcast', timeout=3000, required=False, mem_gb=24)
-        j += fvm.config('C05', 'cond_2w_signal', 'cond.c', 3, 4, 'sc', srcs=src, defines=['NW=2', 'NSIG=1'], spec=fvm.kspec_amutex(3), bounds='2 waiters, 1 signal', timeout=3000, required=False, mem_gb=24)
-        j += fvm.config('C05', 'cond_1w_2sig', 'cond.c', 2, 5, 'sc', srcs=src, defines=['NW=1', 'NSIG=2'], spec=fvm.kspec_amutex(2), bounds='1 waiter, 2 signals', timeout=3000, required=False, mem_gb=24)
+        j += fvm.config('C05', 'cond_1w_pred_outside2', 'cond.c', 2, 4, 'sc', srcs=src, defines=['NW=1', 'NSIG=2', 'PREDICATE', 'SIGNAL_OUTSIDE'], spec=fvm.kspec_amutex(2, spin=0), bounds='as before, preceded by one blind signal without the mutex; spin bound 0', timeout=1500, required=False)
+        j += fvm.config('C05', 'cond_2w_bcast', 'cond.c', 3, 4, 'sc', srcs=src, defines=['NW=2', 'NSIG=1', 'BROADCAST'], spec=fvm.kspec_amutex(3), bounds='2 waiters, 1 broadcast', timeout=1500, required=False, mem_gb=24)
+        j += fvm.config('C05', 'cond_2w_signal', 'cond.c', 3, 4, 'sc', srcs=src, defines=['NW=2', 'NSIG=1'], spec=fvm.kspec_amutex(3), bounds='2 waiters, 1 signal', timeout=1500, required=False, mem_gb=24)
+        j += fvm.config('C05', 'cond_1w_2sig', 'cond.c', 2, 5, 'sc', srcs=src, defines=['NW=1', 'NSIG=2'], spec=fvm.kspec_amutex(2), bounds='1 waiter, 2 signals', timeout=1500, required=False, mem_gb=24)
     return j
